@@ -1,1 +1,126 @@
-From TL Require Import Base.Base.
+(* C12 - List and sequence functions agree with their specification.       *)
+(* Statements only; the proofs are in Proofs/Lists.v.  A proper list value  *)
+(* is [of_list xs Nil] for a Coq list xs, a dotted one [of_list xs t]; the   *)
+(* specification is the Coq standard library on xs.                          *)
+From TL Require Import Base.Base Model.Reader Model.Printer Model.Store Model.Eval Model.Init.
+From TL Require Import Proofs.Lists.
+Local Open Scope Z_scope.
+
+Theorem C12_car_cons : forall a b, cxr [true] (Cons a b) = Ok a.  Proof. exact car_cons. Qed.
+Theorem C12_cdr_cons : forall a b, cxr [false] (Cons a b) = Ok b. Proof. exact cdr_cons. Qed.
+Theorem C12_car_cdr_nil : cxr [true] Nil = Ok Nil /\ cxr [false] Nil = Ok Nil.
+Proof. split; reflexivity. Qed.
+
+(* through the interpreter: (car (cons 'a 'b)) and (cdr (cons 'a 'b)) *)
+Theorem C12_car_cons_eval : forall F f a b s,
+  run F (S (S (S (S f)))) (TCall true (Prim (PCxr [true]))
+      (Cons (Cons (Prim PCons) (of_list [Quote a; Quote b] Nil)) Nil)) s = (Ok a, s) /\
+  run F (S (S (S (S f)))) (TCall true (Prim (PCxr [false]))
+      (Cons (Cons (Prim PCons) (of_list [Quote a; Quote b] Nil)) Nil)) s = (Ok b, s).
+Proof. intros. split; reflexivity. Qed.
+
+(* every c[ad]{2,4}r is the composition its name spells *)
+Theorem C12_cxr_compose : forall p q x,
+  cxr (p ++ q) x = match cxr q x with Ok v => cxr p v | e => e end.
+Proof. exact cxr_compose. Qed.
+Theorem C12_cxr_names :
+  forallb (fun e => String.eqb (fst e) (cxr_name (snd e))) cxr_table = true /\
+  List.length cxr_table = 30%nat /\ NoDup (map snd cxr_table).
+Proof. split; [exact cxr_table_names|exact cxr_table_complete]. Qed.
+
+(* nthcdr = skipn for every index: zero, in range, at and past the end, negative *)
+Theorem C12_nthcdr_skipn : forall n xs, 0 <= n ->
+  nthcdr n (of_list xs Nil) = Ok (of_list (skipn (Z.to_nat n) xs) Nil).
+Proof. exact nthcdr_spec. Qed.
+Theorem C12_nthcdr_negative : forall n l, n <= 0 -> nthcdr n l = Ok l.
+Proof. exact nthcdr_negative. Qed.
+Theorem C12_nthcdr_dotted : forall n xs t, atom_tail t -> 0 <= n <= Z.of_nat (List.length xs) ->
+  nthcdr n (of_list xs t) = Ok (of_list (skipn (Z.to_nat n) xs) t).
+Proof. exact nthcdr_dotted. Qed.
+
+(* (nth n l) = (car (nthcdr n l)) = the n-th element, nil past the end *)
+Theorem C12_nth_is_car_nthcdr : forall n l,
+  nth n l = match nthcdr n l with Ok x => cxr [true] x | e => e end.
+Proof. exact nth_is_car_nthcdr. Qed.
+Theorem C12_nth_nth : forall n xs, 0 <= n ->
+  nth n (of_list xs Nil) = Ok (List.nth (Z.to_nat n) xs Nil).
+Proof. exact nth_spec. Qed.
+
+Theorem C12_length : forall xs, length_z (of_list xs Nil) = Z.of_nat (List.length xs).
+Proof. exact length_spec. Qed.
+
+Theorem C12_last : forall xs x, last (of_list (xs ++ [x]) Nil) None = Ok (Cons x Nil).
+Proof. exact last_spec. Qed.
+Theorem C12_last_n : forall xs n, 0 <= n -> xs <> [] ->
+  last (of_list xs Nil) (Some n) = Ok (of_list (skipn (List.length xs - Z.to_nat n) xs) Nil).
+Proof. exact last_n_spec. Qed.
+
+(* append = app; the last argument may be dotted; lengths add up *)
+Theorem C12_append_app : forall xs ys,
+  append2 (of_list xs Nil) (of_list ys Nil) = Ok (of_list (xs ++ ys) Nil).
+Proof. exact append2_app. Qed.
+Theorem C12_append_dotted_last : forall xs ys t, xs <> [] ->
+  append2 (of_list xs Nil) (of_list ys t) = Ok (of_list (xs ++ ys) t).
+Proof. exact append_dotted. Qed.
+Theorem C12_length_append : forall xs ys r,
+  append2 (of_list xs Nil) (of_list ys Nil) = Ok r ->
+  length_z r = length_z (of_list xs Nil) + length_z (of_list ys Nil).
+Proof. exact length_append. Qed.
+Theorem C12_append_nary : forall ls acc,
+  append_all (of_list acc Nil) (map (fun l => of_list l Nil) ls)
+  = Ok (of_list (acc ++ List.concat ls) Nil).
+Proof. exact append_all_concat. Qed.
+
+(* mapcar / seq-map, seq-filter, seq-reduce, seq-find: map, filter,       *)
+(* fold_left, find, for every function value that computes a function g    *)
+Theorem C12_map : forall rec f g, pure1 rec f g ->
+  forall l s, map_l rec f l s = (Ok (map g l), s).
+Proof. exact map_l_map. Qed.
+Theorem C12_filter : forall rec f g, pure1 rec f g ->
+  forall l s, filter_l rec f l s = (Ok (filter (fun x => truthy (g x)) l), s).
+Proof. exact filter_l_filter. Qed.
+Theorem C12_reduce : forall rec f g, pure2 rec f g ->
+  forall l acc s, reduce_l rec f l acc s = (Ok (fold_left g l acc), s).
+Proof. exact reduce_l_fold. Qed.
+Theorem C12_find : forall rec f g, pure1 rec f g ->
+  forall l s, find_l rec f l s = (Ok (List.find (fun x => truthy (g x)) l), s).
+Proof. exact find_l_find. Qed.
+(* each element is visited once, in list order, also by an effectful callee *)
+Theorem C12_map_order : forall rec f x l,
+  map_l rec f (x :: l) =
+  bind (call rec false f (Cons x Nil)) (fun v => bind (map_l rec f l) (fun vs => ret (v :: vs))).
+Proof. exact map_l_order. Qed.
+
+(* assoc returns the first pair whose key matches; non-pairs are skipped *)
+Theorem C12_assoc_first_match : forall p es s,
+  assoc_find (fun k => ret (p k)) (of_list es Nil) s =
+  (Ok (match List.find (is_pair_with p) es with Some e => e | None => Nil end), s).
+Proof. exact assoc_first_match. Qed.
+
+Print Assumptions C12_car_cons. Print Assumptions C12_cdr_cons. Print Assumptions C12_car_cdr_nil.
+Print Assumptions C12_car_cons_eval. Print Assumptions C12_cxr_compose. Print Assumptions C12_cxr_names.
+Print Assumptions C12_nthcdr_skipn. Print Assumptions C12_nthcdr_negative.
+Print Assumptions C12_nthcdr_dotted. Print Assumptions C12_nth_is_car_nthcdr.
+Print Assumptions C12_nth_nth. Print Assumptions C12_length. Print Assumptions C12_last.
+Print Assumptions C12_last_n. Print Assumptions C12_append_app.
+Print Assumptions C12_append_dotted_last. Print Assumptions C12_length_append.
+Print Assumptions C12_append_nary. Print Assumptions C12_map. Print Assumptions C12_filter.
+Print Assumptions C12_reduce. Print Assumptions C12_find. Print Assumptions C12_map_order.
+Print Assumptions C12_assoc_first_match.
+
+(* non-vacuity, through the whole interpreter *)
+Definition F0 : fops :=
+  {| f_add := fun _ _ => 0; f_sub := fun _ _ => 0; f_mul := fun _ _ => 0;
+     f_div := fun _ _ => 0; f_rem := fun _ _ => 0; f_pow := fun _ _ => 0;
+     f_max := fun _ _ => 0; f_min := fun _ _ => 0; f_of_int := fun z => z;
+     f_to_int := fun z => z; f_round := fun z => z; f_trunc := fun z => z;
+     f_lt := Z.ltb; f_le := Z.leb; f_eq := Z.eqb; f_is_finite := fun _ => true;
+     f_to_dec := fun _ => []; f_of_dec := fun _ => None |}.
+Definition ev0 (p : string) := fst (eval_string F0 60 (s2t p) (init_state [] None)).
+Example C12_ex : ev0 "(list (nth 1 '(a b c)) (nth 5 '(a b c)) (nthcdr 2 '(a b c)) (last '(a b c)) (length (append '(1 2) '(3))) (cadr '(1 2 3)) (mapcar 'car '((1) (2))) (assoc 'b '((a . 1) 7 (b . 2))) (seq-reduce '+ '(1 2 3) 0))"
+  = Ok (of_list [Sym (s2t "b"); Nil; of_list [Sym (s2t "c")] Nil; of_list [Sym (s2t "c")] Nil;
+                 Int 3; Int 2; of_list [Int 1; Int 2] Nil; Cons (Sym (s2t "b")) (Int 2); Int 6] Nil).
+Proof. vm_compute. reflexivity. Qed.
+
+Check C12_nthcdr_skipn : forall n xs, 0 <= n ->
+  nthcdr n (of_list xs Nil) = Ok (of_list (skipn (Z.to_nat n) xs) Nil).
